@@ -3,10 +3,13 @@
 //
 // Grammar of the three description fields (no blanks inside a field):
 //
-//	tables = name=rows[,name=rows...]           row r of table T: id = T[0]+r, name = "n"+r
+//	tables = entry[,entry...]    entry = name=rows            csv table T, row r: id = T[0]+r, name = "n"+r
+//	                                   | src.list=n           list variable `list` of the `variables` source
+//	                                                          `src` with elements src-list[0]<i>, i < n
 //	reqs   = req[;req...]       req  = name,method,pre,post,tmpl
 //	   pre  = - | map[+map...]  map  = var:N:src:field | var:L:src:field | var:I:src:int:field
 //	                                  | var:G:key | var:P:req:var | var:Q:req:var
+//	                                  | var:V:src:list        (source.<src>.<list>[next])
 //	   post = - | pp[+pp...]    pp   = J:var:field | H:var | A:code | B
 //	   tmpl = - | E | R:req
 //	scens  = scen[;scen...]     scen = name,weight|-,hexshoot[:hexshoot...][,min_waiting_time ms]
@@ -49,8 +52,18 @@ type Table struct {
 	Rows int
 }
 
+// VList: a list variable of a `variables` source.
+type VList struct {
+	Src, List string
+	N         int
+}
+
+// Elem is element i of the list.
+func (v VList) Elem(i int) string { return fmt.Sprintf("%s-%s%d", v.Src, v.List[:1], i) }
+
 type Spec struct {
 	Tables []Table
+	VLists []VList
 	Reqs   []Req
 	Scens  []Scen
 }
@@ -62,8 +75,26 @@ func ParseTables(s string) []Table {
 	}
 	for _, p := range strings.Split(s, ",") {
 		kv := strings.SplitN(p, "=", 2)
+		if strings.Contains(kv[0], ".") {
+			continue
+		}
 		n, _ := strconv.Atoi(kv[1])
 		out = append(out, Table{Name: kv[0], Rows: n})
+	}
+	return out
+}
+
+func ParseVLists(s string) []VList {
+	var out []VList
+	if s == "-" || s == "" {
+		return out
+	}
+	for _, p := range strings.Split(s, ",") {
+		kv := strings.SplitN(p, "=", 2)
+		if i := strings.IndexByte(kv[0], '.'); i >= 0 {
+			n, _ := strconv.Atoi(kv[1])
+			out = append(out, VList{Src: kv[0][:i], List: kv[0][i+1:], N: n})
+		}
 	}
 	return out
 }
@@ -78,6 +109,8 @@ func pathOf(f []string) string {
 		return "source." + f[2] + "[" + f[3] + "]." + f[4]
 	case "G":
 		return "source.g." + f[2]
+	case "V":
+		return "source." + f[2] + "." + f[3] + "[next]"
 	case "P":
 		return "request." + f[2] + ".postprocessor." + f[3]
 	case "Q":
@@ -134,7 +167,7 @@ func ParseScens(s string) []Scen {
 }
 
 func ParseSpec(tables, reqs, scens string) Spec {
-	return Spec{Tables: ParseTables(tables), Reqs: ParseReqs(reqs), Scens: ParseScens(scens)}
+	return Spec{Tables: ParseTables(tables), VLists: ParseVLists(tables), Reqs: ParseReqs(reqs), Scens: ParseScens(scens)}
 }
 
 // CSV returns the content of the csv file of a table.
@@ -157,6 +190,22 @@ func (s Spec) YAML(prefix string) []byte {
 			"fields": []string{"id", "name"}, "ignore_first_line": false, "delimiter": ","})
 	}
 	sources = append(sources, m{"name": "g", "type": "variables", "variables": m{"a": "va", "b": "vb"}})
+	var vsrc []string
+	vvars := map[string]m{}
+	for _, v := range s.VLists {
+		if vvars[v.Src] == nil {
+			vvars[v.Src] = m{}
+			vsrc = append(vsrc, v.Src)
+		}
+		elems := make([]string, v.N)
+		for i := range elems {
+			elems[i] = v.Elem(i)
+		}
+		vvars[v.Src][v.List] = elems
+	}
+	for _, name := range vsrc {
+		sources = append(sources, m{"name": name, "type": "variables", "variables": vvars[name]})
+	}
 	var reqs []interface{}
 	for i, r := range s.Reqs {
 		hd := m{"X-Vars": "{{.request}}"}
